@@ -107,7 +107,10 @@ MANIFEST_ENTRY = {
             "exception text of the inner codec quoted in the last-resort ERROR names no payload value is an assumption, "
             "checked on the generated inputs only. ERROR replies are still keyed by the error URI (the caller selects the "
             "key the same way); sealing them under the key of the procedure needs a protocol change. Not covered by the "
-            "property: reflection/replay of a genuine ciphertext (Box is symmetric) — shown as an example in the proof file.",
+            "property: reflection/replay of a genuine ciphertext (Box is symmetric) — shown as an example in the proof file; and "
+            "a downgrade: the rejection theorems are about messages that carry enc_algo - a message for a covered URI that arrives "
+            "WITHOUT enc_algo (ciphertext replaced by clear arguments by the router) is delivered as a plain message, the "
+            "handler sees encrypted = false (receive returns .plain); the property speaks about altered ciphertexts only.",
 }
 
 # --------------------------------------------------------------------------- rings
